@@ -340,7 +340,7 @@ func Main(t *testing.T, chk *Check) {
 		rp := loadReplay(t, cfg.TapeFile)
 		tape := simrt.ReplayTape(rp.Tape)
 		if len(rp.Labels) > 0 {
-			tape.Expect = rp.Labels
+			tape.Expect, tape.ExpectComplete = rp.Labels, rp.LabelsVersion >= 2
 		}
 		c := runCase(t, chk, tape, rp.CaseSeed, cfg, res, true)
 		if c.harnessErr != "" {
@@ -557,7 +557,7 @@ func minimise(t *testing.T, chk *Check, cfg *Config, res *ShardResult, rp *Repla
 		}
 	}
 	out := &Replay{Property: rp.Property, Tier: rp.Tier, CaseSeed: rp.CaseSeed, Kind: lastViol.Kind, Site: lastViol.Site, Detail: lastViol.Detail,
-		Tape: cur, Labels: lastLabels, Notes: lastNotes, Trace: lastTrace, Minimised: true, OrigLen: len(rp.Tape)}
+		Tape: cur, Labels: lastLabels, Notes: lastNotes, Trace: lastTrace, Minimised: true, OrigLen: len(rp.Tape), LabelsVersion: 2}
 	if len(out.Labels) > len(cur) {
 		out.Labels = out.Labels[:len(cur)]
 	}
